@@ -226,6 +226,25 @@ class Ctx:
         self.cov.setdefault("stage_wall_s", {})[label] = round(time.time() - t, 2)
         return summary, diffs, oracle, known
 
+    def schedule_conflicts(self, region_substrings, bounds=("10", "20"), label="schedule-of-own-regions"):
+        """The property depends on the race freedom of some parallel regions (e.g. C04 on the matrix assembly 'for any thread count used
+        for assembly'): regenerate the schedule model from the C++ (tools/omp_extract.py), search it for a concrete conflict and take over
+        the conflicts of the regions named (the proofs about the schedule stay with C11)."""
+        r = run(["python3", os.path.join(ROOT, "tools", "omp_extract.py")])
+        if r.returncode != 0:
+            self.broken.append(("translator omp_extract.py: the parallel regions no longer have the extractable form", r.stdout[-2000:]))
+            return
+        ok, out = self.lake_build(["gmgdriver"])
+        if not ok:
+            self.broken.append(("lake build gmgdriver (regenerated schedule)", out[-3000:]))
+            return
+        _, _, oracle, _ = self.pipe(["true"], f"sched {bounds[0]} {bounds[1]}", label=label)
+        for o in oracle:
+            if any(sub in o for sub in region_substrings):
+                self.failing.append({"stage": label, "seed": self.seed, "cmd": f"gmgdriver sched {bounds[0]} {bounds[1]}",
+                                     "what": f"ORACLE {self.prop} two iterations of one barrier interval of a parallel region this property depends on conflict "
+                                             f"(the result depends on the schedule): " + o})
+
     def crash_probe(self, harness_cmd, label, start_re=r"^(H|LV|CASE|case)\b", env=None, max_lines=40):
         """After a harness death: run the harness alone, unbuffered, and report the records of the last case it began as the
         failing input (the operation sequence on which the real code crashed)."""
